@@ -295,6 +295,47 @@ def run(world, rep, tier, only=None):
                    (m.text()[:30], m.line, w_.text()[:40]))
     rep.floor("C08.f walk-then-write pairs in resize2fs", n_f, 2)
 
+    # ------------------------------------------------------------------ C08.g a relocated inode table is written in full unless it moves up
+    # move_itables() may leave the all-zero tail of a table unwritten only when the table moves up by less than that
+    # tail (the new tail then lies on zeros); whatever shortens the write must sit under a test that the move is upward.
+    mi = prog.fn("move_itables", RZ)
+    wr_new = [n for n in calls_to(mi, "io_channel_write_blk64") if T.path(arg(n, 1)) == "new_blk"]
+    rep.floor("C08.g write of the table at its new place in move_itables", len(wr_new), 1)
+    for i, wn in enumerate(wr_new):
+        cnt = T.path(arg(wn, 2))
+        shorter = [n for n in mi.events("S") if cnt and T.path(n.ev["lhs"]) == cnt and n.ev.get("o") in ("-=", "--")]
+        if not shorter:
+            rep.ob("C08.g", site(mi, "table written at its new place#%d" % i),
+                   bool(cnt) and any(T.last_field(n.ev.get("rhs") or {}) and T.last_field(n.ev["rhs"])[1] == "inode_blocks_per_group"
+                                     for n in mi.events("S") if T.path(n.ev["lhs"]) == cnt) or
+                   (T.last_field(arg(wn, 2)) or ("", ""))[1] == "inode_blocks_per_group",
+                   "the count is inode_blocks_per_group and nothing shortens it")
+        for j, sn in enumerate(shorter):
+            def upward(t, a):
+                a0 = T.strip(a)
+                if not (isinstance(a0, dict) and a0.get("k") == "b"):
+                    return False
+                l, r, o = a0.get("l"), a0.get("r"), a0.get("o")
+                def is_diff(x):
+                    x = resolve_local(mi, x)
+                    x0 = T.strip(x)
+                    return isinstance(x0, dict) and x0.get("k") == "b" and x0.get("o") == "-" and \
+                        T.path(x0.get("l")) == "new_blk" and T.path(x0.get("r")) == "old_blk"
+                if is_diff(l) and T.const(r) == 0:
+                    return (o == ">" and t) or (o == "<=" and not t)
+                if is_diff(r) and T.const(l) == 0:
+                    return (o == "<" and t) or (o == ">=" and not t)
+                if T.path(l) == "new_blk" and T.path(r) == "old_blk":
+                    return (o == ">" and t) or (o == "<=" and not t)
+                if T.path(l) == "old_blk" and T.path(r) == "new_blk":
+                    return (o == "<" and t) or (o == ">=" and not t)
+                return False
+            lits = control_lits(mi, sn)
+            rep.ob("C08.g", site(mi, "shortened table write only for an upward move#%d.%d" % (i, j)),
+                   any(upward(t, a) for t, a in lits),
+                   "`%s` (line %d) lies under `new_blk - old_blk > 0`: guards %s" %
+                   (sn.text()[:20], sn.line, [("" if t else "!") + T.pp(a)[:30] for t, a in lits][-3:]))
+
 def _cn(n):
     return T.call_names(n.ev["x"])[0] if T.call_names(n.ev["x"]) else "?"
 
